@@ -366,6 +366,22 @@ func c12StructuredDocs(quick bool) [][]byte {
 	for _, d := range CountDocs(map[bool]int{true: 40, false: 200}[quick]) {
 		add(d)
 	}
+	for _, d := range UnicodeDocs() {
+		add(d)
+	}
+	// the same documents with CR LF line endings (model documents, tables, tab/space code mixtures, leak-prone documents)
+	for _, d := range ModelDocs() {
+		add(CRLF(d))
+	}
+	for _, d := range TableDocs() {
+		add(CRLF(d))
+	}
+	for _, d := range TabCodeDocs() {
+		add(CRLF(d))
+	}
+	for _, d := range c06Docs {
+		add(CRLF([]byte(d)))
+	}
 	return docs
 }
 
